@@ -1550,6 +1550,41 @@ func genRound3(g *hx.Gen, emit func(tcase)) {
 			finish(manyWords(r, alpha, n), alpha, r.Chance(1, 6))
 		}
 	}
+	// little sharing: the automaton (and the register) has about 500, 1000, 2000 (4000) nodes
+	targets := []int{500, 540, 1010, 1080, 2030, 2150}
+	if g.Thorough() {
+		targets = append(targets, 250, 270, 4080, 4200, 515, 520, 1030, 1040, 2060, 2080)
+	}
+	for _, t := range targets {
+		m := r.Range(5, 10)
+		alpha := make([]byte, 256)
+		for i := range alpha {
+			alpha[i] = byte(i)
+		}
+		if r.Chance(1, 3) {
+			alpha = pickBytes(r, alpha, 16, 64)
+		}
+		seen := map[string]bool{}
+		var ws [][]byte
+		for size := 0; size < t; { // grow until the minimal automaton has just t nodes or a few more
+			for k := 0; k < 8; k++ {
+				w := randWordLen(r, alpha, m-r.Intn(2))
+				if !seen[string(w)] {
+					seen[string(w)] = true
+					ws = append(ws, w)
+				}
+			}
+			ws = sortDedup(ws)
+			size, _ = minimalSizeTrie(ws)
+		}
+		// twins that must share a fresh tail: early, in the middle and at the very end of the order
+		for _, hb := range []byte{alpha[0], alpha[len(alpha)/2], alpha[len(alpha)-1]} {
+			tail := randWordLen(r, alpha, m-2)
+			x := r.Perm(len(alpha))
+			ws = append(ws, cat([]byte{hb, alpha[x[0]]}, tail), cat([]byte{hb, alpha[x[1]]}, tail))
+		}
+		finish(sortDedup(ws), alpha, r.Chance(1, 6))
+	}
 	// deep branches
 	for round := g.Pick(2, 16); round > 0; round-- {
 		for _, L := range depthSteps {
